@@ -192,4 +192,5 @@ class GroundedEffect:
             )
 
         for new_value in new_values:
-            state.state_fluents[new_value.untyped_representation] = new_value
+            # storing a copy - the function object belongs to the grounded effect and changes on its next use.
+            state.state_fluents[new_value.untyped_representation] = new_value.copy()
